@@ -97,7 +97,7 @@ def describe(tier, seed):
                     'constant or literal, notation past(x,tau) / x(t-tau)) combination, delayed variable first or not first in '
                     'the state vector, solver conventions euler (t = step counter) and scipy: the compiled function called '
                     'with a hand-made quadratic hist (distinct per component) at 6 probe times must equal the reference that '
-                    'reads component x of hist(t_time - tau); delayed edges under an adaptive solver; run() vs method-of-steps '
+                    'reads component x of hist(t_time - tau); delayed edges (one, and 2-3 between merged sources and targets in every listing order) under an adaptive solver; run() vs method-of-steps '
                     'solution (euler, heun, scipy); vectorized vs non-vectorized runs of 1-3 merged nodes with per-node delays; run() vs the and vs the exact history of a ramp (also sampled more coarsely than stepped, and over '
                     'more steps than the history buffer initially holds); non-trivial = all',
             'bounds': {'state_vars': 3, 'delayed_terms': 2 if tier == 'quick' else 3}}
